@@ -35,7 +35,7 @@ type session struct {
 var sessionSolver = "z3-new"
 
 func newSession(script string) (*session, string, error) {
-	cmd := exec.Command(sessionSolver, "-in", "-T:30")
+	cmd := exec.Command(sessionSolver, "-in", "-T:240")
 	in, _ := cmd.StdinPipe()
 	outp, _ := cmd.StdoutPipe()
 	cmd.Stderr = nil
@@ -43,6 +43,7 @@ func newSession(script string) (*session, string, error) {
 		return nil, "", err
 	}
 	s := &session{cmd: cmd, in: in, out: bufio.NewReader(outp)}
+	io.WriteString(in, "(set-option :timeout 8000)\n")
 	io.WriteString(in, script)
 	res, err := s.check()
 	return s, res, err
@@ -50,11 +51,15 @@ func newSession(script string) (*session, string, error) {
 
 func (s *session) check() (string, error) {
 	io.WriteString(s.in, "\n(check-sat)\n")
-	line, err := s.out.ReadString('\n')
-	if err != nil {
-		return "", err
+	for {
+		line, err := s.out.ReadString('\n')
+		if err != nil {
+			return "", err
+		}
+		if l := strings.TrimSpace(line); l != "" {
+			return l, nil
+		}
 	}
-	return strings.TrimSpace(line), nil
 }
 
 // soft adds the assertion if the problem stays satisfiable with it.
@@ -90,7 +95,7 @@ func (s *session) value(t Term) (string, error) {
 		if s.nDecl > s.nChecked {
 			s.nChecked = s.nDecl
 			if r, err := s.check(); err != nil || r != "sat" {
-				return "", fmt.Errorf("model lost after late declarations (%s)", r)
+				return "", fmt.Errorf("model lost after late declarations (%s, %v)", r, err)
 			}
 		}
 	}
@@ -355,9 +360,10 @@ func (x *extractor) structLit(ref Term, sty types.Type, depth int) string {
 // ---------------------------------------------------------------------
 
 type replayResult struct {
-	Panicked bool     `json:"panicked"`
-	Panic    string   `json:"panic"`
-	Results  []string `json:"results"`
+	Panicked bool              `json:"panicked"`
+	Panic    string            `json:"panic"`
+	Results  []string          `json:"results"`
+	Post     map[string]string `json:"post"`
 }
 
 // tryReplay extracts the counterexample of a failed obligation, runs the real
@@ -380,6 +386,9 @@ func tryReplay(eng *Engine, o *Obligation, info map[string]any, repo string) boo
 	nDeclScript := len(u.sc.declOrder)
 	script := strings.Replace(u.query(o, false), "(check-sat)\n", "", 1)
 	script = strings.Replace(script, "(get-model)\n", "", 1)
+	// Model search for the replay drops universally quantified assumptions
+	// (a weakening: more models). The candidate is then judged on the real code.
+	script = dropQuantified(script)
 	pkg := eng.typesPkgByPath(pkgPath)
 	var softs []string
 	for _, in := range u.inputs {
@@ -422,9 +431,16 @@ func tryReplay(eng *Engine, o *Obligation, info map[string]any, repo string) boo
 			s.soft(c)
 		}
 		if r, err := s.check(); err != nil || r != "sat" {
+			// the shrinking constraints made the solver give up: restart without them
 			s.close()
-			info["replay"] = "interactive solver session lost the model"
-			return false
+			s, res, err = newSession(script)
+			if err != nil || res != "sat" {
+				if s != nil {
+					s.close()
+				}
+				info["replay"] = "interactive solver session lost the model"
+				return false
+			}
 		}
 		s.sc = u.sc
 		s.nDecl, s.nChecked = nDeclScript, nDeclScript
@@ -466,7 +482,7 @@ func tryReplay(eng *Engine, o *Obligation, info map[string]any, repo string) boo
 		info["replay"] = "real function panicked on the model input (" + rr.Panic + ")"
 		return o.Kind != "ensures"
 	}
-	if o.Kind != "ensures" || len(o.retResults) == 0 {
+	if o.Kind != "ensures" || (len(o.retResults) == 0 && len(rr.Post) == 0) {
 		info["replay"] = "model input executed on the real code; clause kind " + o.Kind + " has no automatic output comparison"
 		return false
 	}
@@ -481,8 +497,41 @@ func tryReplay(eng *Engine, o *Obligation, info map[string]any, repo string) boo
 			pin.WriteString("(assert " + a + ")\n")
 		}
 	}
+	// observed post-state of objects passed by pointer
+	for _, in := range u.inputs {
+		pt, ok := in.Ty.Underlying().(*types.Pointer)
+		if !ok || o.retHeap == nil {
+			continue
+		}
+		st, ok := pt.Elem().Underlying().(*types.Struct)
+		if !ok {
+			continue
+		}
+		for i := 0; i < st.NumFields(); i++ {
+			fld := st.Field(i)
+			if v, ok := rr.Post[in.Name+"."+fld.Name()]; ok {
+				region := u.fieldRegion(pt.Elem(), i)
+				ft := mk(u.te.sortOf(fld.Type()), "select", u.heapGet(o.retHeap, region), in.T)
+				if w, _, isInt := isIntegerType(fld.Type()); isInt {
+					if n, ok := new(big.Int).SetString(v, 10); ok {
+						pin.WriteString("(assert " + mkEq(ft, bvConst(n, w)).S + ")\n")
+					}
+				} else if isBoolType(fld.Type()) {
+					pin.WriteString("(assert " + mkEq(ft, Term{v, SBool}).S + ")\n")
+				}
+			}
+			if v, ok := rr.Post["len("+in.Name+"."+fld.Name()+")"]; ok {
+				region := u.fieldRegion(pt.Elem(), i)
+				ft := mk(SSlice, "select", u.heapGet(o.retHeap, region), in.T)
+				if n, ok := new(big.Int).SetString(v, 10); ok {
+					pin.WriteString("(assert " + mkEq(sLen(ft), bvConst(n, 64)).S + ")\n")
+				}
+			}
+		}
+	}
 	script2 := strings.Replace(u.query(o, false), "(check-sat)\n", "", 1)
 	script2 = strings.Replace(script2, "(get-model)\n", "", 1)
+	script2 = dropQuantified(script2)
 	os.WriteFile(strings.TrimSuffix(o.File, ".smt2")+".pinned.smt2", []byte(script2+pin.String()+"(check-sat)\n"), 0o644)
 	s2, res2, err := newSession(script2 + pin.String())
 	if s2 != nil {
@@ -569,14 +618,43 @@ func runHarness(eng *Engine, fn *ssa.Function, pkg *types.Package, argLits []str
 	sb.WriteString(")\n\n")
 	sb.WriteString("func govcShow(v interface{}) string {\n\tswitch x := v.(type) {\n\tcase nil:\n\t\treturn \"nil\"\n\tcase error:\n\t\tif x == nil { return \"nil\" }\n\t\treturn \"non-nil\"\n\tcase []byte:\n\t\tif x == nil { return \"nil\" }\n\t\tn := make([]int, len(x)); for i, b := range x { n[i] = int(b) }\n\t\tj, _ := json.Marshal(n); return string(j)\n\tcase bool, int, int8, int16, int32, int64, uint, uint8, uint16, uint32, uint64:\n\t\treturn fmt.Sprint(x)\n\t}\n\treturn fmt.Sprintf(\"%v\", v)\n}\n\n")
 	sb.WriteString("func TestGovcReplay(t *testing.T) {\n")
-	sb.WriteString("\tres := struct{ Panicked bool `json:\"panicked\"`; Panic string `json:\"panic\"`; Results []string `json:\"results\"` }{}\n")
+	sb.WriteString("\tres := struct{ Panicked bool `json:\"panicked\"`; Panic string `json:\"panic\"`; Results []string `json:\"results\"`; Post map[string]string `json:\"post\"` }{Post: map[string]string{}}\n")
 	sb.WriteString("\tfunc() {\n\t\tdefer func() { if r := recover(); r != nil { res.Panicked = true; res.Panic = fmt.Sprint(r) } }()\n")
 	sig := fn.Signature
 	var call string
-	args := argLits
+	args := append([]string{}, argLits...)
+	// pointer-to-struct arguments are bound to variables so that their post-state can be reported
+	var post []string
+	for i, p := range fn.Params {
+		pt, ok := p.Type().Underlying().(*types.Pointer)
+		if !ok || i >= len(args) || args[i] == "nil" {
+			continue
+		}
+		st, ok := pt.Elem().Underlying().(*types.Struct)
+		if !ok {
+			continue
+		}
+		v := fmt.Sprintf("govcArg%d", i)
+		sb.WriteString(fmt.Sprintf("\t\t%s := %s\n", v, args[i]))
+		args[i] = v
+		for k := 0; k < st.NumFields(); k++ {
+			fld := st.Field(k)
+			if !fld.Exported() && fld.Pkg() != pkg {
+				continue
+			}
+			if _, isInt := fld.Type().Underlying().(*types.Basic); isInt && (isBoolType(fld.Type()) || func() bool { _, _, ok := isIntegerType(fld.Type()); return ok }()) {
+				post = append(post, fmt.Sprintf("\t\tres.Post[%q] = fmt.Sprint(%s.%s)\n", p.Name()+"."+fld.Name(), v, fld.Name()))
+			}
+			if _, isSl := fld.Type().Underlying().(*types.Slice); isSl {
+				post = append(post, fmt.Sprintf("\t\tres.Post[%q] = fmt.Sprint(len(%s.%s))\n", "len("+p.Name()+"."+fld.Name()+")", v, fld.Name()))
+			}
+		}
+	}
 	if sig.Recv() != nil {
-		sb.WriteString("\t\trecv := " + args[0] + "\n")
-		call = "recv." + fn.Name() + "(" + strings.Join(args[1:], ", ") + ")"
+		call = args[0] + "." + fn.Name() + "(" + strings.Join(args[1:], ", ") + ")"
+		if !strings.HasPrefix(args[0], "govcArg") {
+			call = "(" + args[0] + ")." + fn.Name() + "(" + strings.Join(args[1:], ", ") + ")"
+		}
 	} else {
 		call = fn.Name() + "(" + strings.Join(args, ", ") + ")"
 	}
@@ -599,6 +677,9 @@ func runHarness(eng *Engine, fn *ssa.Function, pkg *types.Package, argLits []str
 				sb.WriteString(fmt.Sprintf("\t\tres.Results = append(res.Results, govcShow(r%d))\n", i))
 			}
 		}
+	}
+	for _, p := range post {
+		sb.WriteString(p)
 	}
 	sb.WriteString("\t}()\n\tj, _ := json.Marshal(res)\n\tos.WriteFile(os.Getenv(\"GOVC_REPLAY_OUT\"), j, 0o644)\n}\n")
 	src := filepath.Join(tmp, "zz_govc_replay_test.go")
@@ -655,4 +736,24 @@ func cmdReplay(file, repo string) int {
 	obl, _ := info["obligation"].(string)
 	fmt.Printf("replay %s: re-running the check for property %s restricted to obligation %s\n", file, prop, obl)
 	return cmdCheck([]string{"-prop", prop, "-only", obl, "-repo", repo, "-no-evidence"})
+}
+
+// dropQuantified removes assumption lines containing quantifiers, except the
+// final (negated) goal.
+func dropQuantified(script string) string {
+	lines := strings.Split(script, "\n")
+	last := -1
+	for i, l := range lines {
+		if strings.HasPrefix(l, "(assert (not ") {
+			last = i
+		}
+	}
+	var out []string
+	for i, l := range lines {
+		if i != last && strings.HasPrefix(l, "(assert ") && (strings.Contains(l, "(forall ") || strings.Contains(l, "(exists ")) {
+			continue
+		}
+		out = append(out, l)
+	}
+	return strings.Join(out, "\n")
 }
